@@ -28,7 +28,7 @@ ASSUMPTIONS = [
     "report text goes to the formatters' own streams, so it is never confused with leaked output",
     "between a KeyboardInterrupt escaping a step hook and the end of the run no user code runs; 'restored' is observed at the end of the run in that case",
 ]
-REQUIRED = {"capture.nothing_reaches_real_stream": {"quick": 1200, "thorough": 30000},
+REQUIRED = {"wild.streams_restored_after_the_run": {"quick": 8, "thorough": 300}, "capture.nothing_reaches_real_stream": {"quick": 1200, "thorough": 30000},
             "passthrough.markers_arrive": {"quick": 500, "thorough": 20000},
             "steprun.streams_restored_on_exit": {"quick": 4000, "thorough": 150000},
             "scenario.logging_restored": {"quick": 1500, "thorough": 60000},
@@ -653,6 +653,10 @@ def run(spec, mon):
         case["args"] = case["args"] + ([] if a else ["--no-capture"]) + ([] if b else ["--no-capture-stderr"]) + ["--no-logcapture"]
         case["env_without"] = rng.choice([["before_all", "after_all"], ["before_all"], ["before_all", "before_feature", "after_feature", "before_tag", "after_tag"]])
         subprocess_case(mon, rng, case)
+    if spec["shard"] == 0:
+        # behave's own acceptance features as workload: the probes of bvm.wild in every behave process they spawn
+        from ..wild import run as wild
+        wild.feed(mon, ID, spec.get("tier", "quick"))
 
 
 def replay(case, mon):
@@ -672,4 +676,4 @@ LEVEL_TEXT = ("Exploration: the process's stdout/stderr are replaced by sentinel
               "asserts root-logger handlers and level are as before; the failing step's report contains exactly its "
               "scenario's markers; formatter output shows none of a passing scenario; a sample runs as a real process.")
 LEVEL_NOTE = "Trusted: sentinel streams and marker bookkeeping of this module; logging markers untracked when log capture is off."
-TECHNIQUE = "runtime monitoring: sentinel streams + marker conservation, post-condition wrappers on Step.run / Scenario.run, subprocess byte observation"
+TECHNIQUE = "runtime monitoring: sentinel streams + marker conservation, post-condition wrappers on Step.run / Scenario.run, subprocess byte observation; plus oracle-free invariant probes armed (sitecustomize) in every behave process that the repository's own acceptance features spawn"
